@@ -181,6 +181,7 @@ func getSchemaMeta(t reflect.Type) (*schemaMeta, error) {
 // 2. It does not traverse unexposed subfields of the struct.
 // 3. It passes nil to the argument StructField when it's not a struct field.
 // 4. It stops when encoutering nil.
+// 5. It passes a nil pointer that is an element of an array, slice or map to fn.
 func traverseGo(val *reflect.Value, field *reflect.StructField, fn func(*reflect.Value, *reflect.StructField)) {
 	t := val.Type()
 
@@ -210,6 +211,12 @@ func traverseGo(val *reflect.Value, field *reflect.StructField, fn func(*reflect
 	case reflect.Array, reflect.Slice:
 		for i := 0; i < val.Len(); i++ {
 			subval := val.Index(i)
+			if subval.Kind() == reflect.Ptr && subval.IsNil() {
+				// A nil element (e.g. a YAML null in a list of objects) is not
+				// an omitted field: let the callback see it.
+				fn(&subval, nil)
+				continue
+			}
 			traverseGo(&subval, nil, fn)
 		}
 	case reflect.Map:
@@ -217,6 +224,10 @@ func traverseGo(val *reflect.Value, field *reflect.StructField, fn func(*reflect
 		for iter.Next() {
 			k, v := iter.Key(), iter.Value()
 			traverseGo(&k, nil, fn)
+			if v.Kind() == reflect.Ptr && v.IsNil() {
+				fn(&v, nil)
+				continue
+			}
 			traverseGo(&v, nil, fn)
 		}
 	case reflect.Ptr:
